@@ -1,6 +1,7 @@
 """C04 — never more than `concurrency` iterations in flight; all workers usable."""
+from ..core import hx
 ID = "C04"
-PROPS = ["F1Verif.Props.C04", "F1Verif.Props.FactsC04", "F1Verif.Props.CPool", "F1Verif.Props.RefineC02", "F1Verif.Props.RefineC02W", "F1Verif.Props.RefineC05S"]
+PROPS = ["F1Verif.Props.C04", "F1Verif.Props.FactsC04", "F1Verif.Props.CPool", "F1Verif.Props.RefineC02", "F1Verif.Props.RefineC02W", "F1Verif.Props.RefineC05S", "F1Verif.Props.RefineC05U"]
 ALSO = ["F1Verif.Props.Pool"]
 RULE = ("engine B/C on real pools: pool.usable — rounds in which all W gated iterations finish together with k < W "
         "requests pending and a tick of W follows after a swept delay of 0-50 us; W iterations must be executing again "
@@ -25,6 +26,10 @@ def corpus():
         "pool.handles 2 3",
         "run prop=C04 mode=constant rate=20/50ms dur=400 conc=4 body=150 expectfull=1",
         "run prop=C04 mode=users conc=6 dur=300 body=20 expectfull=1",
+        "run prop=C04 mode=file dur=9000 conc=3 file=u:300:3;u:3000:3 body=2600",          # C04m: the users of a stage finish before the next stage starts its own
+        "run prop=C04 mode=file dur=9000 conc=2 file=u:200:2;u:200:3;u:200:1 body=150",
+        "plan 0 scenario=73,maxdur=10000000000,conc=2,maxit=0,igndrop=0 mode=%s,conc=6 dur=1000000000" % hx("users"),     # C04n: a users stage takes its users from the default section before the limits
+        "plan 0 scenario=73,maxdur=10000000000,conc=6,maxit=0,igndrop=0 mode=%s,conc=2 dur=1000000000 dur=1000000000,conc=4" % hx("users"),
         "run prop=C04 mode=users conc=4 dur=300 body=20 expectfull=1 combine=1",
         "run prop=C04 mode=constant rate=20/50ms dur=400 conc=4 body=150 maxit=50 expectfull=1",             # a limit above the concurrency does not add workers
         "run prop=C04 mode=staged stages=0s:30,2s:30 freq=50 dist=none dur=400 conc=5 body=150 maxit=1000 expectfull=1",           # handles reach the components of a combined scenario
@@ -62,6 +67,9 @@ def compare(rec):
     if rec["case"].startswith("cli "):
         from . import _plan
         return _plan.cli_compare(rec)
+    if rec["case"].startswith("plan "):
+        from . import _plan
+        return _plan.plan_compare(rec)
     if rec["model"] == "-":
         return None
     return None if rec["impl"] == rec["model"] else "model=%s impl=%s" % (rec["model"], rec["impl"])
